@@ -48,8 +48,10 @@ func c18paths(c *Ctx) {
 		// the directory the Go distribution itself is installed under (a toolchain below $HOME/sdk, a registered tools
 		// directory): source files of the standard library are files under a protected prefix like any other
 		filepath.Dir(runtime.GOROOT()),
+		// directories written with a trailing separator
+		"/srv/vault/", "/opt/keys and certs/",
 		"/ci/" + strings.Repeat("w", 59), "/ci/" + strings.Repeat("x", 60), "/ci/" + strings.Repeat("y", 61), "/store/" + strings.Repeat("0123456789abcdef", 7) + "/objects", "/deep/" + strings.Repeat("segment-of-a-long-path/", 12) + "end"}
-	replPool := []string{"~d", "~p", "$SRV", "~w", "~alice", "CI:", "~deep", "~gosrc", "~work", "~tmp", "~u", "~bin", "~ws", "~stage", "~brace", "", "", "GH:acme", "~pc", "W:", "/srv/data/projects/work", "/billing", "~sdk", "~L63", "~L64", "~L65", "~store", "~long"}
+	replPool := []string{"~d", "~p", "$SRV", "~w", "~alice", "CI:", "~deep", "~gosrc", "~work", "~tmp", "~u", "~bin", "~ws", "~stage", "~brace", "", "", "GH:acme", "~pc", "W:", "/srv/data/projects/work", "/billing", "~sdk", "@vault/", "K:", "~L63", "~L64", "~L65", "~store", "~long"}
 	if len(prefixPool) != len(replPool) {
 		panic("harness: prefixPool and replPool differ in length")
 	}
@@ -250,7 +252,7 @@ func c18paths(c *Ctx) {
 				p = k + gen.Pick(r, []string{"/mnt/Volumes/ext1/proj/main.go", "/releases/v1.2.3/cmd/x.go", "/web/node_modules/left-pad/index.go", "/a/releases/v2/Volumes/v/b.go"})
 			case 0, 1, 2, 3: // under a protected prefix
 				k := gen.Pick(r, keys)
-				p = k + "/" + gen.Pick(r, []string{"main.go", "pkg/util/x.go", "a b/c.go", "ünï/file.go", "deep/er/and/deeper/f.go", ".hidden/z.go",
+				p = strings.TrimSuffix(k, "/") + "/" + gen.Pick(r, []string{"main.go", "pkg/util/x.go", "a b/c.go", "ünï/file.go", "deep/er/and/deeper/f.go", ".hidden/z.go",
 					// entries whose names START with two dots (the ..data / ..<timestamp> directories of projected volumes, ..tmp of editors)
 					"..data/app/main.go", "...tmp/main.go", "..2024_05_01_12_00_00.123456789/hook.go", "..data",
 					// (under the directory of the Go distribution this is a source file of the standard library)
@@ -358,7 +360,14 @@ func rxNames(rxs []rxMap) []string {
 	return s
 }
 
-func under(p, k string) bool { return p == k || strings.HasPrefix(p, k+"/") }
+// under: p is the registered directory k or lies below it (a key written with a trailing separator covers what lies
+// below it).
+func under(p, k string) bool {
+	if strings.HasSuffix(k, "/") {
+		return strings.HasPrefix(p, k)
+	}
+	return p == k || strings.HasPrefix(p, k+"/")
+}
 
 func c18judge(p, got string, privacy, rxFlag bool, table map[string]string, rxs []rxMap, cwd string) (clause, feature, why string) {
 	stringPrefixed := false
@@ -376,7 +385,7 @@ func c18judge(p, got string, privacy, rxFlag bool, table map[string]string, rxs 
 			}
 			if under(p, k) {
 				applicable = append(applicable, v)
-				if got == k || strings.HasPrefix(got, k+"/") {
+				if under(got, k) {
 					protected = k
 				}
 			}
